@@ -265,6 +265,11 @@ func (n *node) snapshotChunks(upTo int64, term int64) ([]*proto.SnapshotChunk, e
 
 func (n *node) step(op int) bool {
 	s := n.s
+	// threads started while an event is served (stream handlers, the database a snapshot installs with its
+	// background threads) belong to the node: a crash takes them down with it
+	prevGrp := s.Cur().Group
+	s.SetGroup(n.grp)
+	defer s.SetGroup(prevGrp)
 	switch op {
 	case opNewTermSame, opNewTermNext, opNewTermStale:
 		t := n.ackTerm
@@ -382,6 +387,13 @@ func (n *node) step(op int) bool {
 				return false
 			}
 			to := n.last - 1
+			// committed entries are on a majority and in every later leader's log: no leader truncates a
+			// follower below what that follower has already applied
+			if db := server.VerifFollowerDB(n.fc); db != nil {
+				if c, err := db.ReadCommitOffset(); err == nil && c > to {
+					return false
+				}
+			}
 			// a leader truncates a follower before it streams to it: never below what that follower
 			// has acknowledged to this very leader
 			for o, t := range n.ackedFrom {
